@@ -30,9 +30,12 @@ def opname(t, width, op):
     return '%s.atomic.rmw%d.%s_u' % (t, width, op)
 
 
-def build_module(shared):
+def build_module(shared, imported=False):
     m = Module()
-    m.mems.append((1, 1, True) if shared else (1, 1, False))
+    if imported:
+        m.imports.append(('env', 'shared_mem', 'memory', (1, 1, True)))
+    else:
+        m.mems.append((1, 1, True) if shared else (1, 1, False))
     m.exports.append(('mem', 'memory', 0))
     names = []
     for t, w in FAMILIES:
@@ -212,10 +215,10 @@ def sequential(chk, w2c2, quick):
     chk.sample({'part': 'a', 'lines': ref[1:4]})
 
 
-def stress(chk, w2c2, quick):
-    m, names = build_module(True)
+def stress(chk, w2c2, quick, imported=False):
+    m, names = build_module(True, imported=imported)
     b = m.encode()
-    d = env.subdir('c16-stress')
+    d = env.subdir('c16-stress' + ('-imported' if imported else ''))
     t = e2e.translate(w2c2, b, d, 'atom')
     if t.rc != 0:
         chk.violation('C16:stress:translate', 'atomics module rejected: %s' % t.err[-400:], {'module.wasm': b})
@@ -229,7 +232,9 @@ def stress(chk, w2c2, quick):
     for tag, fl in builds:
         exe = os.path.join(d, 'stress-' + tag)
         cc = 'clang' if tag.startswith('clang') else 'gcc'
-        r = env.run([cc] + fl + ['-w', '-DWASM_THREADS_PTHREADS', '-I', e2e.base_include(), '-I', d] + srcs + ['-o', exe, '-lpthread', '-lm'], timeout=600)
+        if imported and tag == 'asan':
+            continue
+        r = env.run([cc] + fl + ['-w', '-DWASM_THREADS_PTHREADS'] + (['-DIMPORTED_MEM=1'] if imported else []) + ['-I', e2e.base_include(), '-I', d] + srcs + ['-o', exe, '-lpthread', '-lm'], timeout=600)
         if r.rc != 0:
             chk.violation('C16:stress:compile:%s' % tag, 'stress harness does not build (%s): %s' % (tag, r.err[-1500:]), {'module.wasm': b})
             continue
@@ -237,13 +242,15 @@ def stress(chk, w2c2, quick):
     runs = []
     for tag in exes:
         n = (6 if tag == 'plain-O2' else 2) if quick else (60 if tag in ('plain-O2', 'clang-O2') else 12)
+        if imported:
+            n = max(1, n // 3)
         for i in range(n):
             runs.append((tag, i))
 
     def one(job):
         tag, i = job
         rounds = 3 if tag in ('plain-O2', 'clang-O2') else 1
-        return job, env.run([exes[tag], str(env.SEED * 1000 + i), str(rounds), '60' if tag in ('plain-O2', 'clang-O2') else '4'], env=dict(env.SAN_ENV, TSAN_OPTIONS='halt_on_error=0:exitcode=0'), timeout=900)
+        return job, env.run([exes[tag], str(env.SEED * 1000 + i + (500 if imported else 0)), str(rounds), '60' if tag in ('plain-O2', 'clang-O2') else '4'], env=dict(env.SAN_ENV, TSAN_OPTIONS='halt_on_error=0:exitcode=0'), timeout=900)
 
     total_ops = 0
     for (tag, i), r in env.pmap(one, runs, jobs=max(2, env.JOBS // 4)):
@@ -276,7 +283,8 @@ def stress(chk, w2c2, quick):
         chk.ev(ops)
         chk.observe('contended_ops_' + tag, ops)
     chk.observe('contended_ops_total', total_ops, 'set')
-    if total_ops < (2 * 10**6 if quick else 4 * 10**7):
+    chk.observe('memory_' + ('imported' if imported else 'defined') + '_contended_ops', total_ops, 'set')
+    if total_ops < ((2 * 10**6 if quick else 4 * 10**7) // (4 if imported else 1)):
         chk.inconclusive('only %d contended operations executed' % total_ops)
     chk.sample({'part': 'b', 'scenarios': ['add1', 'sub1', 'xchg', 'cas', 'bits', 'lanes', 'lock', 'litmus-sb', 'litmus-mp'], 'threads': [2, 4, 8, 16]})
 
@@ -286,6 +294,7 @@ def main(chk):
     w2c2 = env.build_translator('plain')
     sequential(chk, w2c2, quick)
     stress(chk, w2c2, quick)
+    stress(chk, w2c2, quick, imported=True)   # the shared memory is IMPORTED (handed out by the embedder's resolver)
     chk.assume('V8 is the reference for sequential results; interleavings are those produced by 2..16 threads on 16 cores (no delay injection inside single atomic instructions)')
 
 
